@@ -228,7 +228,7 @@ def main(rep, tier, only):
                 continue
             seen.add(key)
             rets = [r for r in F.walk(fn.get("body"), into_lambdas=False) if r.get("k") == "return"]
-            t = T.show(T.norm(u, rets[0]["e"])) if rets else ""
+            t = T.show(T.snorm(u, fn, rets[0]["e"])) if rets else ""
             if short == "operator==":
                 ok = "r_a0.array()" in t and "r_a1.array()" in t and "==" in t
                 why = "== does not compare the two arrays (%s)" % t
@@ -243,7 +243,7 @@ def main(rep, tier, only):
             continue
         seen.add(key)
         rets = [r for r in F.walk(fn.get("body"), into_lambdas=False) if r.get("k") == "return"]
-        t = T.show(T.norm(u, rets[0]["e"])) if rets else ""
+        t = T.show(T.snorm(u, fn, rets[0]["e"])) if rets else ""
         t = re.sub(r"fcppt::container::bitfield::object\{([^}]*)\}", r"\1", t)   # by-value copy of an operand
         ok = re.sub(r"\s", "", t) in ("operator==(operator&(r_a0,r_a1),r_a0)", "(operator&(r_a0,r_a1)==r_a0)") or ("operator&(r_a0, r_a1)" in t and t.endswith("r_a0)") and "==" in t)
         (rep.ok if ok else rep.fail)("MIRROR", key, F.primary_site(fn), F.describe(fn)[:160], **({"how": "(l & r) == l"} if ok else {"why": "is_subset_eq is %s, specification (l & r) == l" % t}))
@@ -255,7 +255,7 @@ def main(rep, tier, only):
                 continue
             seen.add(key)
             rets = [r for r in F.walk(fn.get("body"), into_lambdas=False) if r.get("k") == "return"]
-            t = T.show(T.norm(u, rets[0]["e"])) if rets else ""
+            t = T.show(T.snorm(u, fn, rets[0]["e"])) if rets else ""
             ok = "r_a0.array()" in t
             (rep.ok if ok else rep.fail)("MIRROR", key, F.primary_site(fn), F.describe(fn)[:160], **({"how": "hashes array()"} if ok else {"why": "hash does not fold the array that == compares (%s)" % t}))
     # ---------------- null_array / construction
@@ -338,7 +338,7 @@ def main(rep, tier, only):
             if "proxy::conversion" in pseen:
                 continue
             pseen.add("proxy::conversion")
-            t = T.show(T.norm(u, rets[0]["e"])) if rets else ""
+            t = T.show(T.snorm(u, fn, rets[0]["e"])) if rets else ""
             tt = t.replace("this->", "").replace("this.", "")
             ok = "test(" in tt and "array_offset(pos_)" in tt and "bit_mask(" in tt and "bit_offset(pos_)" in tt
             (rep.ok if ok else rep.fail)("ADDR", "proxy::operator value_type", F.primary_site(fn), F.describe(fn)[:160],
